@@ -463,6 +463,12 @@ func (e *Engine) havocItem(st *State, env *SpecEnv, item string) {
 			st.hv[k] = v
 		}
 		return
+	case item == "syncmaps":
+		// the contents of every sync.Map (the model does not frame them per map)
+		for _, k := range []string{"SM:dom", "SM:tag", "SM:val"} {
+			st.havocKey(k)
+		}
+		return
 	case item == "ghosts":
 		// every declared ghost variable (model-internal G:$... ghosts are left alone)
 		for name := range e.db.Ghosts {
